@@ -66,7 +66,10 @@ type Config struct {
 
 // ConfigDefault is the default config
 var ConfigDefault = Config{
-	Max:        5,
+	Max: 5,
+	MaxFunc: func(_ fiber.Ctx) int {
+		return 5
+	},
 	Expiration: 1 * time.Minute,
 	KeyGenerator: func(c fiber.Ctx) string {
 		return c.IP()
